@@ -178,12 +178,15 @@ void PoolWakeState::wakeAll() {
   // its data.running() check but before enterSleep() (which sets the bit).
   // Without the bump, such a thread enters waitFor with a stale epoch and
   // blocks until timeout — causing slow shutdown.
+  //
+  // Always issue the futex wake, even when the group's sleepMask reads zero: a parked thread's
+  // bit may already have been cleared by claimAndWakeOne() whose FUTEX_WAKE(1) on the group-shared
+  // word woke a *different* member of the group. Such a thread is still asleep with its bit clear,
+  // and skipping the wake here would leave it (and the join in the destructor / resize) waiting
+  // for the sleep backstop. wakeAll() only runs at shutdown/resize, so the extra syscalls are
+  // irrelevant.
   for (int32_t g = 0; g < numGroups_; ++g) {
-    if (groupStates_[static_cast<size_t>(g)].sleepMask.load(std::memory_order_relaxed)) {
-      waiterFor(g * groupSize_).bumpAndWakeAll();
-    } else {
-      waiterFor(g * groupSize_).bump();
-    }
+    waiterFor(g * groupSize_).bumpAndWakeAll();
   }
 }
 
